@@ -52,7 +52,7 @@ def run_c09(ctx):
 PLANS["C09"] = dict(
     run=run_c09, signature=sig_default,
     technique="TLA+ spec of exact even-odd containment; TLC model-checks the ray-cast design against it and validates traces of the real planar.*Contains calls",
-    level_text="TLC exhaustively checks that the ray-cast transcription of rayIntersect/RingContains equals the exact even-odd-with-boundary predicate on every ring of <=3 (quick) / <=4 (thorough) vertices of a 4x4 grid against the 49-point half-step lattice, and judges every answer the real code gives on those domains plus seeded rings to 12 vertices, polygons with holes and multipolygons, all rotations/reversals/closings, against the exact predicate. Every configuration is also translated as a whole by offsets up to 2^40 (exact in float64): the answers must not change. Six events out of eight carve their rings from one long-lived array refilled in place. Rings with vertices on the integer grid 0..16 are queried exactly on their slanted edges (every lattice point and midpoint of each edge) and half a step beside; holes may be arealess (a symmetric bow-tie, a ring folded onto a line). Triangles on the 16-grid are queried 2^-40 above and below their slanted edges. The whole configuration is also handed over in units of 2^-1000 .. 2^900 (an exact scaling: products of two coordinates leave the float64 range, the coordinates do not).",
+    level_text="TLC exhaustively checks that the ray-cast transcription of rayIntersect/RingContains equals the exact even-odd-with-boundary predicate on every ring of <=3 (quick) / <=4 (thorough) vertices of a 4x4 grid against the 49-point half-step lattice, and judges every answer the real code gives on those domains plus seeded rings to 12 vertices, polygons with holes and multipolygons, all rotations/reversals/closings, against the exact predicate. Every configuration is also translated as a whole by offsets up to 2^40 (exact in float64): the answers must not change. Six events out of eight carve their rings from one long-lived array refilled in place. Rings with vertices on the integer grid 0..16 are queried exactly on their slanted edges (every lattice point and midpoint of each edge) and half a step beside; holes may be arealess (a symmetric bow-tie, a ring folded onto a line). Triangles on the 16-grid are queried 2^-40 above and below their slanted edges. The whole configuration is also handed over in units of 2^-1000 .. 2^900 (an exact scaling: products of two coordinates leave the float64 range, the coordinates do not). Seeded rings also have 1, 2, 15..17, 31..33, 63..65, 127..129 and 200 vertices.",
     level_note="Exact only on small dyadic lattices (multiples of 1/4 below 8) where the float slope comparison is exact; general-position floats are not covered. Trusted: TLC, the Json module, the int/4 -> float64 projection in the harness.",
     rule="one event = one ring/polygon/multipolygon with the answers of the real containment function for every "
          "query point of a lattice; non-trivial = the answers are not all equal (the lattice straddles the boundary); "
@@ -109,7 +109,7 @@ def run_c08(ctx):
 PLANS["C08"] = dict(
     run=run_c08, signature=sig_default,
     technique="TLA+ region predicates (exact even-odd membership on a query lattice, shoelace additivity); TLC model-checks the Sutherland-Hodgman design against them and validates traces of the real clip.Ring/Polygon/MultiPolygon/Collection/Geometry/Bound and mvt Layer.Clip calls",
-    level_text="TLC exhaustively checks that the four-pass Sutherland-Hodgman transcription of clip.ring() satisfies the region predicate (q in output iff q in input for every quarter-step lattice point strictly inside the box and off all boundaries), in-box, closure, inside-unchanged, bound-disjoint-nothing and split additivity of the signed area for every closed ring of <=3 (quick) / <=4 (thorough) vertices on a 5x5 grid x 9 boxes, and judges the real code's outputs on every closed 3-vertex ring x every box, seeded 4..12-vertex arbitrary/star-shaped rings on integer and half-integer grids, polygons with holes, multipolygons, all box splits, and the structural laws of MultiPoint, Bound, Collection, generic Geometry and mvt Layer.Clip. Every call sees the figure at its own size or scaled exactly by 2^30, 2^-20 or 2^44. Every third figure is handed over with its rings carved out of one coordinate array, one behind the other (fixed in 46dcf4c: the scratch space of one ring used to reach into the next).",
+    level_text="TLC exhaustively checks that the four-pass Sutherland-Hodgman transcription of clip.ring() satisfies the region predicate (q in output iff q in input for every quarter-step lattice point strictly inside the box and off all boundaries), in-box, closure, inside-unchanged, bound-disjoint-nothing and split additivity of the signed area for every closed ring of <=3 (quick) / <=4 (thorough) vertices on a 5x5 grid x 9 boxes, and judges the real code's outputs on every closed 3-vertex ring x every box, seeded 4..12-vertex arbitrary/star-shaped rings on integer and half-integer grids, polygons with holes, multipolygons, all box splits, and the structural laws of MultiPoint, Bound, Collection, generic Geometry and mvt Layer.Clip. Every call sees the figure at its own size or scaled exactly by 2^30, 2^-20 or 2^44. Every third figure is handed over with its rings carved out of one coordinate array, one behind the other (fixed in 46dcf4c: the scratch space of one ring used to reach into the next). The rings lent to the previous call must still hold what that call left in them; mvt layers have extents 512 .. 8192 (the box is in the layer's units).",
     level_note="Vertices on 7x7 integer / half-integer grids; outputs projected to the 1/60 (1/120) lattice (residual > 1e-7 lattice units = 'offlattice' event, rejected). 'A ring disjoint from the box yields nothing' is checked for rings whose bound misses the box; a ring that surrounds the box without meeting it must only produce a region-empty result. General-position floats are not covered. Trusted: TLC, Json module, the lattice projection.",
     rule="one event = one real clip call with input and output in lattice units; non-trivial = output non-empty and different from the input (clipring), both halves non-empty (clipsplit), some but not all points kept (clippts), more than one member (clipcoll); distinct = distinct event text",
     assumptions=["every Sutherland-Hodgman vertex is an input vertex, a box corner or an input edge /\\ box line, hence on the lattice (residual checked per vertex)"],
@@ -315,7 +315,7 @@ def run_c11(ctx):
 PLANS["C11"] = dict(
     run=run_c11, signature=sig_default,
     technique="TLA+ bag model of the quadtree with relational query specs; TLC checks the node-tree design refines it over all short histories, generates every short history for replay into the real tree, and validates the recorded traces (contents, node cells, query results)",
-    level_text="TLC explores every history of add / remove-by-point / remove-by-identity up to length 5 (quick) / 6 (thorough) over a 6-point alphabet (duplicate, midline, bound-corner, outside points) and checks in every state that the node-tree transcription (midline rule, pull-up removal, pruned nearest-child-first search, array max-heap) refines the bag model for a family of 16 query points x k in 1..3 x 3 limits x 5 boxes x 3 filters. TLC then emits every history of length 4 (5) with predicted results; the harness replays them into a real quadtree.Quadtree and after each step records contents, the node tree (hook VerifWalk) and ~130 query results, plus seeded histories of 200-500 operations over 16 points; TLC judges every event against the bag model. Seeded histories run in three coordinate maps: integers, integers / 1024 (a unit-square tree: distance limits below 1), and positions in an increasing table of arbitrary floats (non-dyadic bounds, cell midlines written either way, one-ulp neighbours) for the order-based operations (add, remove, bound search incl. degenerate boxes). One distance limit per history equals the exact distance between a query point and a stored point (strictly-within boundary). Every 23rd observation uses k around the stored count and around 16 / 20 / 32, a k followed by k+1, and a limit of exactly zero; ranked tables hold points closer together than the square root of the smallest float. Sizes: trees of 300 .. 5000 (20 000) pointers with duplicates, midline points and a deep cluster go through fill / thin (removal by identity and by point) / refill, and after each phase 60 queries of every kind, filtered and not, are compared with a plain scan over what should be stored (by the harness; TLC checks the verdicts). A second tree stores plain struct values that carry a slice (an orb.Pointer that cannot be compared with ==): filled, thinned by point and by a caller's match function, searched, against a scan.",
+    level_text="TLC explores every history of add / remove-by-point / remove-by-identity up to length 5 (quick) / 6 (thorough) over a 6-point alphabet (duplicate, midline, bound-corner, outside points) and checks in every state that the node-tree transcription (midline rule, pull-up removal, pruned nearest-child-first search, array max-heap) refines the bag model for a family of 16 query points x k in 1..3 x 3 limits x 5 boxes x 3 filters. TLC then emits every history of length 4 (5) with predicted results; the harness replays them into a real quadtree.Quadtree and after each step records contents, the node tree (hook VerifWalk) and ~130 query results, plus seeded histories of 200-500 operations over 16 points; TLC judges every event against the bag model. Seeded histories run in three coordinate maps: integers, integers / 1024 (a unit-square tree: distance limits below 1), and positions in an increasing table of arbitrary floats (non-dyadic bounds, cell midlines written either way, one-ulp neighbours) for the order-based operations (add, remove, bound search incl. degenerate boxes). One distance limit per history equals the exact distance between a query point and a stored point (strictly-within boundary). Every 23rd observation uses k around the stored count and around 16 / 20 / 32, a k followed by k+1, and a limit of exactly zero; ranked tables hold points closer together than the square root of the smallest float. Sizes: trees of 300 .. 5000 (20 000) pointers with duplicates, midline points and a deep cluster go through fill / thin (removal by identity and by point) / refill, and after each phase 60 queries of every kind, filtered and not, are compared with a plain scan over what should be stored (by the harness; TLC checks the verdicts). A second tree stores plain struct values that carry a slice (an orb.Pointer that cannot be compared with ==): filled, thinned by point and by a caller's match function, searched, against a scan. Every other value-pointer tree has a bound without an end in x or in both axes; stored points have neighbours one float64 away, asked for from the origin through a filter that admits only the pair (squared distances differ in the last place, distances not at all).",
     level_note="Integer coordinates in power-of-two bounds (all distances and midlines exact); ties between equidistant pointers may be broken either way; KNearest with k <= 0 is outside the quantifier and not exercised. Trusted: TLC, Json module, the VerifWalk hook (read-only), int conversions in the harness.",
     rule="one event = one operation on a real tree with the observed contents, node tree and all query results after it; every event is non-trivial (nt=1); distinct = distinct event text",
     assumptions=["pointer identity is modelled by a unique integer id per added pointer",
@@ -351,7 +351,7 @@ def run_c19(ctx):
 PLANS["C19"] = dict(
     run=run_c19, signature=sig_default,
     technique="TLA+ spec of queries as interleaved per-visit processes over a read-only tree; TLC checks all interleavings (and that shared-scratch designs fail), emits every interleaving as a schedule replayed into gated goroutines, and validates results of free-running goroutines under the race detector",
-    level_text="TLC checks every interleaving of 3 query processes (nearest and k-nearest, one step per node visit) over a tree with removals for NoSharedWrite, Deterministic (= the same query alone) and TreeUnchanged, and confirms that the two forbidden designs (search box in the tree object; readers compacting emptied leaves) violate them. Every interleaving of two queries is then emitted as a schedule and replayed: one goroutine per query, each node visit gated through the filter callback; after it, results must equal the same query run alone and satisfy the bag-model relations, and the node tree (hook VerifWalk) must be identical. Paused queries: for seeded trees and pairs of queries of all six kinds (incl. the same point and k with different limits) query A is stopped inside its filter callback - or, for the unfiltered kinds, inside the Point() method of the first pointer it looks at - while query B runs from start to finish; B must complete and both must return what they return alone. Finally 2..32 free-running goroutines with mixed queries and per-goroutine buffers run on seeded trees under the Go race detector; a race report kills the harness and is a violation. Per goroutine the filtered questions come first or last; a 42-level tree branching at every level is walked by one query while another is stopped at its innermost point; the concurrent queries include distance limits of five times the tree's width, and every twelfth tree is one nothing was ever added to.",
+    level_text="TLC checks every interleaving of 3 query processes (nearest and k-nearest, one step per node visit) over a tree with removals for NoSharedWrite, Deterministic (= the same query alone) and TreeUnchanged, and confirms that the two forbidden designs (search box in the tree object; readers compacting emptied leaves) violate them. Every interleaving of two queries is then emitted as a schedule and replayed: one goroutine per query, each node visit gated through the filter callback; after it, results must equal the same query run alone and satisfy the bag-model relations, and the node tree (hook VerifWalk) must be identical. Paused queries: for seeded trees and pairs of queries of all six kinds (incl. the same point and k with different limits) query A is stopped inside its filter callback - or, for the unfiltered kinds, inside the Point() method of the first pointer it looks at - while query B runs from start to finish; B must complete and both must return what they return alone. Finally 2..32 free-running goroutines with mixed queries and per-goroutine buffers run on seeded trees under the Go race detector; a race report kills the harness and is a violation. Per goroutine the filtered questions come first or last; a 42-level tree branching at every level is walked by one query while another is stopped at its innermost point; the concurrent queries include distance limits of five times the tree's width, and every twelfth tree is one nothing was ever added to. Half of the trees give their goroutines result windows carved from one shared array (capacity reaching into the neighbours' windows: a query writes its k results and nothing else); every fourth tree has 170..230 points and lost half of them.",
     level_note="Schedules are at filter-call granularity (the only hookless yield point); instructions inside one visit are not interleaved deterministically - that is what the race-detector stage covers probabilistically. Trusted: TLC, the Go race detector, the VerifWalk hook.",
     rule="one event = one tree-building operation or one goroutine's query batch (concurrent results, the same queries alone, node tree before/after); every event non-trivial; distinct = distinct event text",
     assumptions=["goroutine scheduling between gates is sequentialised by the controller; within a visit the Go scheduler decides"],
@@ -380,7 +380,7 @@ def sig_c03(ev):
 PLANS["C03"] = dict(
     run=run_c03, signature=sig_c03,
     technique="TLA+ state machines for the MVT command-stream encoder/decoder and the key/value tables; TLC model-checks Decode(Encode(g)) = Canon(g) and validates traces of real Marshal/Unmarshal calls byte-structure for byte-structure",
-    level_text="TLC checks on all small geometries (points/lines over {+-(2^28-1), -1, 0, 2}, rings/polygons/multipolygons of triangles) that the decoder state machine applied to the encoder state machine's command words yields Canon(g), that zig-zag is bijective there and that the decoder is total on every sequence of <=4 (5) command words over a 10-word alphabet. For seeded layer lists (all kinds, |v| < 2^28 for points/lines, |v| <= 8192 for polygons, every Go numeric kind, nil, slices, maps, colliding numbers of different types, ids, versions, extents) TLC then requires: the tile message read back through the generated protobuf type equals the specified encoding exactly (keys, values, tags, command words), three repeated marshals are byte-identical, Unmarshal and UnmarshalGzipped return Canon of the input with widened numbers. Feature ids of every numeric Go kind including 0; tiny rings placed up to 2^28 from the origin (winding must not depend on position); the bytes and layers returned for the previous event must be unchanged by later calls (no shared buffers). Sizes: layers of 100, 1000, 4000 (20 000, 65 536 thorough) point or line features repeating the same property values (the tile compresses more than tenfold) must come back whole on the plain and on the gzipped path (compared feature by feature in the harness, counts by TLC). The layers the gzipped path returned for the previous event are re-read after the next call (names, keys, string values); the same layers marshalled plain and gzipped 1.2 s apart give the same bytes. Ids in the upper half of the uint64 range and odd ids at 2^52 / 2^23 held as float64 / float32; string values that are not valid UTF-8; consecutive features, also across a layer border, share one Properties map object.",
+    level_text="TLC checks on all small geometries (points/lines over {+-(2^28-1), -1, 0, 2}, rings/polygons/multipolygons of triangles) that the decoder state machine applied to the encoder state machine's command words yields Canon(g), that zig-zag is bijective there and that the decoder is total on every sequence of <=4 (5) command words over a 10-word alphabet. For seeded layer lists (all kinds, |v| < 2^28 for points/lines, |v| <= 8192 for polygons, every Go numeric kind, nil, slices, maps, colliding numbers of different types, ids, versions, extents) TLC then requires: the tile message read back through the generated protobuf type equals the specified encoding exactly (keys, values, tags, command words), three repeated marshals are byte-identical, Unmarshal and UnmarshalGzipped return Canon of the input with widened numbers. Feature ids of every numeric Go kind including 0; tiny rings placed up to 2^28 from the origin (winding must not depend on position); the bytes and layers returned for the previous event must be unchanged by later calls (no shared buffers). Sizes: layers of 100, 1000, 4000 (20 000, 65 536 thorough) point or line features repeating the same property values (the tile compresses more than tenfold) must come back whole on the plain and on the gzipped path (compared feature by feature in the harness, counts by TLC). The layers the gzipped path returned for the previous event are re-read after the next call (names, keys, string values); the same layers marshalled plain and gzipped 1.2 s apart give the same bytes. Ids in the upper half of the uint64 range and odd ids at 2^52 / 2^23 held as float64 / float32; string values that are not valid UTF-8; consecutive features, also across a layer border, share one Properties map object. Tiles of five layers of very different sizes (thousands of features, an empty and a one-feature layer) come back in the order given, thrice the same bytes; lines may repeat a vertex.",
     level_note="Polygon kinds are judged by TLC only for |v| <= 8192 (the ring-regrouping shoelace needs 57 bits at 2^28; TLC integers are 32-bit); the cursor/zig-zag path is exercised to 2^28 on point and line kinds. NaN and -0 property values are not generated (Go map keys treat them specially). Nested or empty collections make Marshal return an error and are outside the quantifier. Trusted: TLC, Json module, gogo/protobuf vectortile.Tile.Unmarshal as the lens on the bytes, encoding/json for uncomparable values, bit interning.",
     rule="one event = one layer list with the tile message and both decoded results; non-trivial = at least one feature with a geometry; distinct = distinct event text",
     assumptions=["the generated protobuf type reads the tile bytes faithfully", "outer rings counter-clockwise and holes clockwise with non-zero area (asserted by the spec per event)"],
@@ -416,7 +416,7 @@ def run_c01(ctx):
 PLANS["C01"] = dict(
     run=run_c01, signature=sig_default,
     technique="TLA+ byte grammar of WKB/EWKB with coordinates as opaque 8-byte strings; TLC checks the reference decoder inverts the encoder on a bounded shape set, emits that set for replay, and validates the real bytes and every decode path byte for byte",
-    level_text="TLC checks on every geometry of a bounded shape set (nine kinds + nil, empty and nil-like members, collections to depth 2, header-looking coordinate bytes) x byte orders x SRIDs {absent, 1, 4326, 2^31-1} that the reference decoder inverts the encoder exactly, that every proper prefix fails to decode, and that the scanner coercion table is total. The same 534 shapes are emitted and replayed through the real wkb and ewkb packages (Marshal, Unmarshal, Decoder, Scanner x 10 destinations x raw/hex/\\\\x-hex/SRID-prefix framings, Value, ValuePrefixSRID), and seeded geometries over every float64 class (NaN payloads, infinities, -0, subnormals, random bits; up to 200 vertices, nesting 4); TLC requires the produced bytes to equal the specified encoding byte for byte and every path to return the canonical value with the written SRID under the documented coercions. Streams: a TLA+ model of one Encoder and one Decoder over one byte pipe (encoder byte order and default SRID persist, the pipe is a FIFO of self-delimiting messages) is model-checked over every history of <=3 (4) operations; every such history is replayed through the real wkb and ewkb Encoder / Decoder with whole, 1-byte and 3-byte reads, plus seeded histories with random geometries, chunked readers and a writer that fails part-way; TLC steps the model along each recorded history and requires every Encode to have written exactly the specified bytes (or a reported prefix) and every Decode to return the oldest undecoded value, its SRID, and to consume exactly one message. Scanners and destinations kept across events (a rows.Scan loop) must answer like fresh ones. Sizes: line strings, multi-points, polygons and multi-line strings with 9 999 .. 20 001 (65 537 thorough) vertices per part, both byte orders, through every decode path (value compared in the harness, byte length against the format by TLC); the hex entry points must give the hex of Marshal for the same SRID, zero included, under default SRIDs 4326, 0 and 3857. What every long-lived scanner handed out last time (its Geometry attribute and the typed destination's value) is re-read bit for bit after its next scan, and one wkb scanner object sees SRID-prefixed, raw and hex rows in turn. A point nested 17..1000 collections deep goes through every path; big inputs sit at all eight alignments of a buffer that is overwritten after decoding. The stream decoders read through every legal reader shape (bytes delivered together with io.EOF, one byte or half the request per read, bufio; the pipe of the stream model reports EOF with its last bytes in half of the histories), and what the byte and the stream decoder return must encode to the bytes it was decoded from.",
+    level_text="TLC checks on every geometry of a bounded shape set (nine kinds + nil, empty and nil-like members, collections to depth 2, header-looking coordinate bytes) x byte orders x SRIDs {absent, 1, 4326, 2^31-1} that the reference decoder inverts the encoder exactly, that every proper prefix fails to decode, and that the scanner coercion table is total. The same 534 shapes are emitted and replayed through the real wkb and ewkb packages (Marshal, Unmarshal, Decoder, Scanner x 10 destinations x raw/hex/\\\\x-hex/SRID-prefix framings, Value, ValuePrefixSRID), and seeded geometries over every float64 class (NaN payloads, infinities, -0, subnormals, random bits; up to 200 vertices, nesting 4); TLC requires the produced bytes to equal the specified encoding byte for byte and every path to return the canonical value with the written SRID under the documented coercions. Streams: a TLA+ model of one Encoder and one Decoder over one byte pipe (encoder byte order and default SRID persist, the pipe is a FIFO of self-delimiting messages) is model-checked over every history of <=3 (4) operations; every such history is replayed through the real wkb and ewkb Encoder / Decoder with whole, 1-byte and 3-byte reads, plus seeded histories with random geometries, chunked readers and a writer that fails part-way; TLC steps the model along each recorded history and requires every Encode to have written exactly the specified bytes (or a reported prefix) and every Decode to return the oldest undecoded value, its SRID, and to consume exactly one message. Scanners and destinations kept across events (a rows.Scan loop) must answer like fresh ones. Sizes: line strings, multi-points, polygons and multi-line strings with 9 999 .. 20 001 (65 537 thorough) vertices per part, both byte orders, through every decode path (value compared in the harness, byte length against the format by TLC); the hex entry points must give the hex of Marshal for the same SRID, zero included, under default SRIDs 4326, 0 and 3857. What every long-lived scanner handed out last time (its Geometry attribute and the typed destination's value) is re-read bit for bit after its next scan, and one wkb scanner object sees SRID-prefixed, raw and hex rows in turn. A point nested 17..1000 collections deep goes through every path; big inputs sit at all eight alignments of a buffer that is overwritten after decoding. The stream decoders read through every legal reader shape (bytes delivered together with io.EOF, one byte or half the request per read, bufio; the pipe of the stream model reports EOF with its last bytes in half of the histories), and what the byte and the stream decoder return must encode to the bytes it was decoded from. EWKB bytes also go through the three decode paths of the wkb package (the SRID is ignored, as its readme says) and must give the same geometry; SRIDs and prefix SRIDs whose bytes spell a byte-order mark and a type word, hex digits or the \\x marker.",
     level_note="The wkb (non-E) scanner's documented, deprecated SRID-prefix retry heuristic is exercised only for prefixes whose low byte is not 0 or 1 (otherwise the prefix is indistinguishable from a header); ewkb.ScannerPrefixSRID is exercised for all SRIDs. Collections with typed-nil members are outside the quantifier. Scanning into a Bound is judged on coordinate ranks (not for NaN inputs). Trusted: TLC, Json module, bit interning of coordinates, encoding/hex for the framings.",
     rule="one event = one geometry x package x byte order x SRID with the produced bytes and the result of every decode path; non-trivial = non-nil geometry; distinct = distinct event text",
     assumptions=["a float64 is identified with its bit pattern (8 bytes) by the harness interning"],
@@ -441,7 +441,7 @@ def sig_c06(ev):
 PLANS["C06"] = dict(
     run=run_c06, signature=sig_c06,
     technique="TLA+ value model (structural equality, tight bound, set-theoretic box operations, shoelace orientation); TLC checks the lattice laws on the model and validates traces of real Clone/Equal/Bound/Union/Extend/Contains/Intersects/Reverse/Orientation calls incl. every single-vertex in-place edit",
-    level_text="TLC checks the lattice laws (idempotent, commutative, associative, empty = identity, contains/extends/intersects consistency) for all pairs and triples of boxes over 3 (quick) / 4 (thorough) ranks including the empty bound, and reversal/orientation/tight-bound laws for all rings of <=4 vertices on a small grid. For seeded shapes of all nine kinds with nil and empty slices, empty members first/last, single-vertex members and nested collections, the harness records: the clone (generic and typed), the interned backing-array addresses of both values, and the value of both after editing each vertex of the clone and then of the original in place; orb.Equal on copied / perturbed / re-nested / truncated pairs and triples; Bound(); the Bound methods on pairs/triples; Reverse and Orientation. TLC requires each to equal the model (clone equal and alias-free, Equal = structural equality and an equivalence, Bound = tight box of the counting vertices, method results = box operations, double reversal = identity, orientation = shoelace sign negated by reversal). Equal is also asked about a Bound and the Ring / Polygon / Collection that has exactly that box, in either argument order. Orientation is also asked of the same ring translated exactly by 1e8 .. 2^45; the lattice laws also take empty bounds of other spellings (Min and Max the wrong way round in x, in y, a box padded inwards beyond its size); equality is also asked of pairs that differ in one coordinate by one unit in the last place, a relative 1e-14 or 1e-12, at magnitudes 1 .. 1e8. A copy with every zero of the other sign is equal; bounds are equal exactly when their corners are. A ring that reads the same in both directions (a, b, c, b, a over arbitrary decimal coordinates) has no orientation; the lattice ring with every edge cut into 32 or 64 equal parts (96..384 vertices, any start) winds like the original. Bound(), Union, Extend, Contains and Intersects also run on the lattice figure stretched by a strictly increasing axis map that sends its outermost lines to +-Inf or +-MaxFloat64 (half planes, the whole plane).",
+    level_text="TLC checks the lattice laws (idempotent, commutative, associative, empty = identity, contains/extends/intersects consistency) for all pairs and triples of boxes over 3 (quick) / 4 (thorough) ranks including the empty bound, and reversal/orientation/tight-bound laws for all rings of <=4 vertices on a small grid. For seeded shapes of all nine kinds with nil and empty slices, empty members first/last, single-vertex members and nested collections, the harness records: the clone (generic and typed), the interned backing-array addresses of both values, and the value of both after editing each vertex of the clone and then of the original in place; orb.Equal on copied / perturbed / re-nested / truncated pairs and triples; Bound(); the Bound methods on pairs/triples; Reverse and Orientation. TLC requires each to equal the model (clone equal and alias-free, Equal = structural equality and an equivalence, Bound = tight box of the counting vertices, method results = box operations, double reversal = identity, orientation = shoelace sign negated by reversal). Equal is also asked about a Bound and the Ring / Polygon / Collection that has exactly that box, in either argument order. Orientation is also asked of the same ring translated exactly by 1e8 .. 2^45; the lattice laws also take empty bounds of other spellings (Min and Max the wrong way round in x, in y, a box padded inwards beyond its size); equality is also asked of pairs that differ in one coordinate by one unit in the last place, a relative 1e-14 or 1e-12, at magnitudes 1 .. 1e8. A copy with every zero of the other sign is equal; bounds are equal exactly when their corners are. A ring that reads the same in both directions (a, b, c, b, a over arbitrary decimal coordinates) has no orientation; the lattice ring with every edge cut into 32 or 64 equal parts (96..384 vertices, any start) winds like the original. Bound(), Union, Extend, Contains and Intersects also run on the lattice figure stretched by a strictly increasing axis map that sends its outermost lines to +-Inf or +-MaxFloat64 (half planes, the whole plane). The family starts with 30 000 x 17 clone / equal / bound calls on nil and empty values of every kind (nothing may depend on how many calls came before).",
     level_note="Small integer coordinates (exact); NaN is not generated (== is not reflexive on it). Typed-nil members inside collections are not generated. Trusted: TLC, Json module, unsafe.SliceData address interning.",
     rule="one event = one observation (clone with all its single-vertex edits, an Equal pair/triple, a Bound, a Bound-method tuple, a Reverse, an Orientation); non-trivial = at least one vertex edit / non-empty bound / orientation != 0 / all Equal and Bound-method events; distinct = distinct event text",
     assumptions=["a slice's backing array is identified by its data pointer (sub-slices of one array would need offsets; Clone never sub-slices)"],
@@ -491,7 +491,7 @@ def sig_c20(ev):
 PLANS["C20"] = dict(
     run=run_c20, signature=sig_c20,
     technique="TLA+ dispatch table and collection laws over result values; TLC emits the bounded shape set, the harness calls every generic entry point, its kind-specific counterpart and the members, and TLC validates totality, agreement, the collection law and read-only-ness per event",
-    level_text="For every shape of the TLC-generated bounded set (nine kinds + nil interface, nil/empty slices, zero-ring polygons in multipolygons, zero-vertex rings in polygons, one-vertex lines, collections nested to depth 2) and seeded rectilinear degenerate-rich shapes, each of 22 generic entry points (Clone, Round, planar Area/CentroidArea/Length/DistanceFrom(WithIndex), geo Area/Length/LengthHaversine, clip, smartclip, project, three simplifiers, tilecover, wkb/ewkb/wkt Marshal, geojson geometry and feature) is called under recover; TLC requires: no panic, result = the kind-specific function's result, a collection's result = the law of the table applied to its members' results (map / sum / min / filter-unwrap / union), and the argument unchanged for the read-only entry points. Read-only entry points receive a copy whose every slice has spare capacity filled with sentinels: the argument and the sentinels must be untouched (clip.Geometry on a MultiPoint counts as read-only, as documented). Seeded multi-part geometries pair a zig-zag part (a simplifier keeps everything) with a straight part full of redundant vertices: parts must not influence each other. Seeded collections also hold nil members (skipped by every entry point). The generic clip appears twice in the table: against a box that cuts the shapes and against one that holds all of them (nothing to cut, and still the typed answer: empty members dropped). Both distance-from entries are also asked from off-grid points inside the shapes' bounds (squared distance rounded down: monotone, so the minimum over members still is the collection's value). New entry Equal.view (a value against a shorter view of the same array).",
+    level_text="For every shape of the TLC-generated bounded set (nine kinds + nil interface, nil/empty slices, zero-ring polygons in multipolygons, zero-vertex rings in polygons, one-vertex lines, collections nested to depth 2) and seeded rectilinear degenerate-rich shapes, each of 22 generic entry points (Clone, Round, planar Area/CentroidArea/Length/DistanceFrom(WithIndex), geo Area/Length/LengthHaversine, clip, smartclip, project, three simplifiers, tilecover, wkb/ewkb/wkt Marshal, geojson geometry and feature) is called under recover; TLC requires: no panic, result = the kind-specific function's result, a collection's result = the law of the table applied to its members' results (map / sum / min / filter-unwrap / union), and the argument unchanged for the read-only entry points. Read-only entry points receive a copy whose every slice has spare capacity filled with sentinels: the argument and the sentinels must be untouched (clip.Geometry on a MultiPoint counts as read-only, as documented). Seeded multi-part geometries pair a zig-zag part (a simplifier keeps everything) with a straight part full of redundant vertices: parts must not influence each other. Seeded collections also hold nil members (skipped by every entry point). The generic clip appears twice in the table: against a box that cuts the shapes and against one that holds all of them (nothing to cut, and still the typed answer: empty members dropped). Both distance-from entries are also asked from off-grid points inside the shapes' bounds (squared distance rounded down: monotone, so the minimum over members still is the collection's value). New entry Equal.view (a value against a shorter view of the same array). Collection law for tilecover: a member whose own result is an error makes the collection's result an error.",
     level_note="The 'programs' half of the quantifier (every type switch in the source names all nine kinds) is a static property of source text and is not decided here; a switch that misses a kind is seen only through an entry point in the table. Float-valued results that are not exact on the integer lattice (geodesic measures, diagonal lengths) are compared for generic = typed by bit pattern but take no part in the arithmetic laws. Trusted: TLC, Json module, sha1 for byte/text results.",
     rule="one event = one entry point applied to one shape (generic result, typed result, member results, argument after the call); non-trivial = non-nil shape; distinct = distinct event text",
     assumptions=["panics are recovered and recorded with the innermost orb function on the stack as the site"],
@@ -538,7 +538,7 @@ def run_c14(ctx):
 PLANS["C14"] = dict(
     run=run_c14, signature=sig_default,
     technique="TLA+ exact Must/May tile sets and sample-point polygon predicate in tile-space lattice units, MergeUp as a state machine with nondeterministic map order checked against MaxMerge; traces of the real tilecover functions validated by TLC",
-    level_text="TLC explores the MergeUp loop with every possible map iteration order for all 65536 zoom-2 tile sets x min in 0..2 (thorough; 384 structured sets quick) and checks result = MaxMerge, disjointness, equal area, no complete sibling quad left and no tile shallower than min. For real covers the harness places lattice paths and star-shaped polygons (with holes) in tile space at zooms 3..22, inverts them to lon/lat, checks with maptile.Fraction that the code sees the lattice point within 1e-6 tile, and records the cover; TLC requires Must <= cover <= May for lines (exact segment/rectangle tests with a 1/64-tile margin, so either choice at an exact corner crossing is accepted), sample-point and boundary tiles in the cover and the cover inside the bounding box for polygons, the tile itself for points, the union for collections, and MergeUp = MaxMerge on every repetition for tile sets at zoom 2 and 4. Also: polygons of up to 8x8 tiles with a small hole somewhere inside (a hole within one tile row), vertices repeated in a row incl. a doubled closing vertex, windows across the equator (the one tile-row edge with an exact latitude: vertices exactly on a row edge), windows starting at tile (0,0) and whole-world windows at zooms 0..2. Model-checked layer for lines: the grid walk of tilecover.line() transcribed in exact arithmetic satisfies Must <= walk <= May for every segment between lattice points of a 3x3 window. Also: multipolygons whose members overlap or nest (the cover is the union), tilecover.Bound on the 1/8192 lattice with corners a hair away from tile edges at zooms to 22, MergeUp on a reused map still holding false-valued keys of another zoom, points at zooms 0..2. Every third polygon cover follows covers that failed (an unclosed ring, alone and as a hole: uneven intersections), and every fourth judged shape is covered once more as a member of a collection (bare ring, polygon, multipolygon, next to points, lines and a nested collection) and compared with the union of the member covers. Values without a vertex (empty, not nil) of every kind are covered at zooms 0..3, alone and as members (nothing to cover); MergeUp also runs on every cover at zooms 0 and 1.",
+    level_text="TLC explores the MergeUp loop with every possible map iteration order for all 65536 zoom-2 tile sets x min in 0..2 (thorough; 384 structured sets quick) and checks result = MaxMerge, disjointness, equal area, no complete sibling quad left and no tile shallower than min. For real covers the harness places lattice paths and star-shaped polygons (with holes) in tile space at zooms 3..22, inverts them to lon/lat, checks with maptile.Fraction that the code sees the lattice point within 1e-6 tile, and records the cover; TLC requires Must <= cover <= May for lines (exact segment/rectangle tests with a 1/64-tile margin, so either choice at an exact corner crossing is accepted), sample-point and boundary tiles in the cover and the cover inside the bounding box for polygons, the tile itself for points, the union for collections, and MergeUp = MaxMerge on every repetition for tile sets at zoom 2 and 4. Also: polygons of up to 8x8 tiles with a small hole somewhere inside (a hole within one tile row), vertices repeated in a row incl. a doubled closing vertex, windows across the equator (the one tile-row edge with an exact latitude: vertices exactly on a row edge), windows starting at tile (0,0) and whole-world windows at zooms 0..2. Model-checked layer for lines: the grid walk of tilecover.line() transcribed in exact arithmetic satisfies Must <= walk <= May for every segment between lattice points of a 3x3 window. Also: multipolygons whose members overlap or nest (the cover is the union), tilecover.Bound on the 1/8192 lattice with corners a hair away from tile edges at zooms to 22, MergeUp on a reused map still holding false-valued keys of another zoom, points at zooms 0..2. Every third polygon cover follows covers that failed (an unclosed ring, alone and as a hole: uneven intersections), and every fourth judged shape is covered once more as a member of a collection (bare ring, polygon, multipolygon, next to points, lines and a nested collection) and compared with the union of the member covers. Values without a vertex (empty, not nil) of every kind are covered at zooms 0..3, alone and as members (nothing to cover); MergeUp also runs on every cover at zooms 0 and 1. Every cover is emptied and scribbled on by the harness once it has been read (a later cover must not show it).",
     level_note="Zero-length lines are outside the quantifier and accepted with any cover. The inverse mercator is written out in the harness (orb/internal cannot be imported) and guarded by the Fraction round-trip check; cases that miss are dropped, never judged. MergeUpPartial is not specified by the property and not checked. Trusted: TLC, Json module, the inverse projection + Fraction guard.",
     rule="one event = one real tilecover / MergeUp call; non-trivial = cover of more than one tile (lines, polygons) / all point, collection and merge events; distinct = distinct event text",
     assumptions=["edges are straight in tile space (the code interpolates in tile fractions)", "lattice points are reproduced by maptile.Fraction within 1e-6 tile (checked per point)"],
@@ -567,7 +567,7 @@ def run_c12(ctx):
 PLANS["C12"] = dict(
     run=run_c12, signature=sig_default,
     technique="TLA+ relations (subsequence, endpoints, exact rational error bound, spacing, counts, monotonicity) and transcriptions of the three simplifiers; TLC model-checks the transcriptions against the relations and validates traces of the real simplifier calls, with simplifier values reused across calls",
-    level_text="TLC checks for every path of <=5 (quick) / <=6 (thorough) vertices on a 3x3 grid and 5 thresholds that the Douglas-Peucker transcription (farthest vertex, strict >) keeps endpoints, stays within the threshold (exact rational point-segment distances), is idempotent and monotone, that the radial scan keeps the spacing, and that Visvalingam under every tie-break respects minimum counts, keep-N and monotonicity. Every path of <=4 (5) vertices on a 4x4 grid and seeded paths to 40 vertices (repeated, collinear, coincident-endpoint vertices), as lines and rings, through the typed and generic entry points, with dyadic thresholds, larger-threshold and second-application runs on REUSED simplifier values, are recorded; TLC evaluates the relations on each event. Polygons and multipolygons of 1..5 parts (parts that collapse, stay, or change, in every order) through Polygon / MultiPolygon / Simplify of all three simplifiers: the result must be the filter-map of the per-part results (spec MvtLayer), i.e. every ring is simplified and exactly the collapsed holes / polygons disappear. Damped zig-zags, spirals and growing zig-zags of 20..49 vertices (the recursion nests linearly); polygon parts that come out with exactly three vertices. Radial also runs with planar.DistanceSquared against the squared threshold on the figure eight times smaller (squared distances below one). Sizes: lines and rings of 600..6000 integer vertices (long straight runs included) go through all three simplifiers; subsequence with the ends kept, the error bound (every input vertex within the threshold of some piece of the result, 1e-9), spacing, minimum counts, keep-N, idempotence and nesting under a larger threshold are evaluated by the harness and the verdict checked by TLC. A third of the generic calls wrap the line or ring two collections deep. One line of 100 000 .. 262 144 vertices per run goes through the same harness-side relations.",
+    level_text="TLC checks for every path of <=5 (quick) / <=6 (thorough) vertices on a 3x3 grid and 5 thresholds that the Douglas-Peucker transcription (farthest vertex, strict >) keeps endpoints, stays within the threshold (exact rational point-segment distances), is idempotent and monotone, that the radial scan keeps the spacing, and that Visvalingam under every tie-break respects minimum counts, keep-N and monotonicity. Every path of <=4 (5) vertices on a 4x4 grid and seeded paths to 40 vertices (repeated, collinear, coincident-endpoint vertices), as lines and rings, through the typed and generic entry points, with dyadic thresholds, larger-threshold and second-application runs on REUSED simplifier values, are recorded; TLC evaluates the relations on each event. Polygons and multipolygons of 1..5 parts (parts that collapse, stay, or change, in every order) through Polygon / MultiPolygon / Simplify of all three simplifiers: the result must be the filter-map of the per-part results (spec MvtLayer), i.e. every ring is simplified and exactly the collapsed holes / polygons disappear. Damped zig-zags, spirals and growing zig-zags of 20..49 vertices (the recursion nests linearly); polygon parts that come out with exactly three vertices. Radial also runs with planar.DistanceSquared against the squared threshold on the figure eight times smaller (squared distances below one). Sizes: lines and rings of 600..6000 integer vertices (long straight runs included) go through all three simplifiers; subsequence with the ends kept, the error bound (every input vertex within the threshold of some piece of the result, 1e-9), spacing, minimum counts, keep-N, idempotence and nesting under a larger threshold are evaluated by the harness and the verdict checked by TLC. A third of the generic calls wrap the line or ring two collections deep. One line of 100 000 .. 262 144 vertices per run goes through the same harness-side relations. A third of the line events run as the middle member of a multi-line string between a tiny closed loop and a two-point line (all three members stay, ends kept); keep-N also with N = 0 (the minimum of the kind).",
     level_note="Thresholds are dyadic (a/4) so that t^2 and 2*area thresholds are exact rationals; a vertex at distance exactly t may be kept or dropped. Geodesic distance functions for Radial are not exercised. Trusted: TLC, Json module, integer projection of coordinates.",
     rule="one event = one simplifier call (input, parameters, output, second application, larger threshold); non-trivial = at least one vertex dropped; distinct = distinct event text",
     assumptions=["integer coordinates of magnitude <= 30 so that all squared distances and cross products fit 32 bits"],
@@ -588,7 +588,7 @@ def run_c17(ctx):
 PLANS["C17"] = dict(
     run=run_c17, signature=sig_default,
     technique="TLA+ closed form of evenly spaced arclength positions in exact rational arithmetic and a transcription of the cumulative-distance walk; TLC checks walk = closed form and validates traces of real Resample/ToInterval calls on integer-length paths",
-    level_text="TLC checks that the transcription of the cumulative-distance walk (with its pinned last step) returns exactly N points equal to the closed form k*L/(N-1) for every axis-aligned path of <=3 (4) segments of length 0..3 (4) and N to 8 (12). Real calls are recorded for every path of <=3 (4) steps from a set of axis-aligned, Pythagorean and zero-length steps and N in -1..13, for seeded longer paths with N to 25, intervals d = dn/dd (incl. d <= 0, d > L, d | L), an L1 distance function on arbitrary integer paths, nil/empty/one-vertex/all-coincident lines; outputs are projected to the event's exact lattice 1/((N-1)*lcm lengths) and TLC requires equality with the closed form and the edge-case rules. For the great-circle distance functions TLC checks count, bit-identical endpoints and order. Two thirds of the input lines are the head of a longer buffer whose spare capacity holds foreign points. Every other call the line lives in one of two long-lived buffers that held other lines before; two-leg paths are also run sixty times larger (coordinate differences beyond 180 and 360). Vertex-less and one-vertex lines go through every N and d; the very same slice (spare capacity and all) is resampled a second time at another resolution and the first result must stay what it was; the inexact-coordinate family runs at scales 2^-50 .. 2^30. Lines written across the antimeridian with the vertex pair (180, y), (-180, y) under both geodesic functions (every point on a segment of the line). ToInterval is also asked for intervals one float64 above and below total / parts (judged when the caller's own quotient lies on that side of the whole number); a line of fewer than two vertices comes back the value it was (an empty line stays empty, nil stays nil).",
+    level_text="TLC checks that the transcription of the cumulative-distance walk (with its pinned last step) returns exactly N points equal to the closed form k*L/(N-1) for every axis-aligned path of <=3 (4) segments of length 0..3 (4) and N to 8 (12). Real calls are recorded for every path of <=3 (4) steps from a set of axis-aligned, Pythagorean and zero-length steps and N in -1..13, for seeded longer paths with N to 25, intervals d = dn/dd (incl. d <= 0, d > L, d | L), an L1 distance function on arbitrary integer paths, nil/empty/one-vertex/all-coincident lines; outputs are projected to the event's exact lattice 1/((N-1)*lcm lengths) and TLC requires equality with the closed form and the edge-case rules. For the great-circle distance functions TLC checks count, bit-identical endpoints and order. Two thirds of the input lines are the head of a longer buffer whose spare capacity holds foreign points. Every other call the line lives in one of two long-lived buffers that held other lines before; two-leg paths are also run sixty times larger (coordinate differences beyond 180 and 360). Vertex-less and one-vertex lines go through every N and d; the very same slice (spare capacity and all) is resampled a second time at another resolution and the first result must stay what it was; the inexact-coordinate family runs at scales 2^-50 .. 2^30. Lines written across the antimeridian with the vertex pair (180, y), (-180, y) under both geodesic functions (every point on a segment of the line). ToInterval is also asked for intervals one float64 above and below total / parts (judged when the caller's own quotient lies on that side of the whole number); a line of fewer than two vertices comes back the value it was (an empty line stays empty, nil stays nil). Mirror-image lines (inexact segment lengths out, the middle vertex repeated, the same lengths back) put points exactly on the repeated vertex: every point within 1e-9 of a segment; geodesic paths of equal lon/lat steps through the middle latitudes with the way to every point measured (k/(N-1) of the whole within 1.5 % of a segment); four goroutines resample at the same time and get what they get alone.",
     level_note="Exact positions only for integer segment lengths (residual > 1e-7 lattice units = 'offlattice' event, rejected). For geo.Distance / DistanceHaversine only count, endpoints and order are judged. Trusted: TLC, Json module, lattice projection, rank interning.",
     rule="one event = one real Resample/ToInterval call; non-trivial = N >= 2 on a line of positive length; distinct = distinct event text",
     assumptions=["segment lengths are integers under the distance function used (by construction of the step set / L1 metric)"],
@@ -642,7 +642,7 @@ def sig_c16(ev):
 PLANS["C16"] = dict(
     run=run_c16, signature=sig_c16,
     technique="TLA+ region predicates (exact even-odd membership on a query lattice, ring shape/winding, open-path closure along the box outline) and the aroundBound corner tables; TLC model-checks the tables and validates traces of the real smartclip calls",
-    level_text="TLC checks the corner-walk tables of aroundBound (cyclic, inverse, terminating, adjacent, turning as requested). For triangles of a 4x4 (5x5) grid x boxes x both orientations, and seeded simple star-shaped rings of 3..12 vertices with vertices on box edges and corners, polygons with an interior hole, two-member multipolygons, through Ring/Polygon/MultiPolygon/Geometry, TLC requires: every output ring closed and inside the closed box, outers wound as requested and holes opposite (zero-area two-point rings from corner touches allowed), a region wholly inside returned unchanged, one wholly outside yielding nothing, and - whenever the input boundary meets the open box - q in output iff q in input for every quarter-step lattice point strictly inside the box and off all boundaries. Open sub-paths of such rings cut at the box are judged against the path closed along the box outline in the requested direction. Comb-shaped polygons (a spine outside the box, 2..3 teeth reaching in, so the outer ring is cut into several pieces) with half-unit holes inside the teeth, through Polygon, Geometry and MultiPolygon; unit-square holes anywhere on the grid. Crossing rings handed over without their closing vertex (closed implicitly when an endpoint is in the box), polygons passed as members of a Collection, holes whose first vertex is level with an odd number of outer-ring vertices, unclosed triangles in the exhaustive part. The recorded finding's input class is the narrowed one (TouchFailProne: by side and direction of the incoming edge, see known_findings.json); elsewhere the region predicate is demanded of touching vertices too. Nested thick arches with a tooth stand on each side of the box in both windings (seven pieces: Go's sort leaves the insertion-sort regime). The generic entry point must answer nil when nothing remains. Every call sees the figure at its own size or scaled exactly by 2^30, 2^-20 or 2^44. Rectangles with one or two slits cut in from one side (ending inside the box or running through it) are handed over through per-axis strictly increasing tables - box from -2 to 3 and -1 to 2, slit walls 2e-17 apart next to zero, subnormal, or a hair apart - which is exact for figures with axis-parallel edges (middle mapped to middle, because aroundBound inserts the midpoint of a side); TLC judges the lattice figure. Sizes: combs of 300 .. 33 000 (66 000 thorough) teeth through the top of the box, ending inside it or running through (more than 2^15 and 2^16 pieces in one call), judged by the harness (polygon count, no holes, winding, vertices in the box, exact area, sample points in every 1/200th slit and tooth) with the verdict checked by TLC.",
+    level_text="TLC checks the corner-walk tables of aroundBound (cyclic, inverse, terminating, adjacent, turning as requested). For triangles of a 4x4 (5x5) grid x boxes x both orientations, and seeded simple star-shaped rings of 3..12 vertices with vertices on box edges and corners, polygons with an interior hole, two-member multipolygons, through Ring/Polygon/MultiPolygon/Geometry, TLC requires: every output ring closed and inside the closed box, outers wound as requested and holes opposite (zero-area two-point rings from corner touches allowed), a region wholly inside returned unchanged, one wholly outside yielding nothing, and - whenever the input boundary meets the open box - q in output iff q in input for every quarter-step lattice point strictly inside the box and off all boundaries. Open sub-paths of such rings cut at the box are judged against the path closed along the box outline in the requested direction. Comb-shaped polygons (a spine outside the box, 2..3 teeth reaching in, so the outer ring is cut into several pieces) with half-unit holes inside the teeth, through Polygon, Geometry and MultiPolygon; unit-square holes anywhere on the grid. Crossing rings handed over without their closing vertex (closed implicitly when an endpoint is in the box), polygons passed as members of a Collection, holes whose first vertex is level with an odd number of outer-ring vertices, unclosed triangles in the exhaustive part. The recorded finding's input class is the narrowed one (TouchFailProne: by side and direction of the incoming edge, see known_findings.json); elsewhere the region predicate is demanded of touching vertices too. Nested thick arches with a tooth stand on each side of the box in both windings (seven pieces: Go's sort leaves the insertion-sort regime). The generic entry point must answer nil when nothing remains. Every call sees the figure at its own size or scaled exactly by 2^30, 2^-20 or 2^44. Rectangles with one or two slits cut in from one side (ending inside the box or running through it) are handed over through per-axis strictly increasing tables - box from -2 to 3 and -1 to 2, slit walls 2e-17 apart next to zero, subnormal, or a hair apart - which is exact for figures with axis-parallel edges (middle mapped to middle, because aroundBound inserts the midpoint of a side); TLC judges the lattice figure. Sizes: combs of 300 .. 33 000 (66 000 thorough) teeth through the top of the box, ending inside it or running through (more than 2^15 and 2^16 pieces in one call), judged by the harness (polygon count, no holes, winding, vertices in the box, exact area, sample points in every 1/200th slit and tooth) with the verdict checked by TLC. A band across the box with a triangular hole that cuts a corner off the box without a vertex in it (all corners, both windings, every entry point); open two-vertex paths from outside to outside among the open-path events.",
     level_note="Rings that surround the box or only touch it are outside the property's domain (the spec evaluates 'boundary meets the open box' itself). Inputs are simple by construction (strictly increasing exact angle about an interior point). Lattice 1/60, residual > 1e-7 = 'offlattice'. Trusted: TLC, Json module, lattice projection, clip.LineString(OpenBound) to cut the open sub-paths.",
     rule="one event = one real smartclip call; non-trivial = non-empty output different from the input; distinct = distinct event text",
     assumptions=["input rings are simple and correctly wound (constructed, not checked by the code)"],
@@ -662,7 +662,7 @@ def run_c04(ctx):
 PLANS["C04"] = dict(
     run=run_c04, signature=sig_default,
     technique="TLA+ token-level printer and recursive-descent grammar of WKT; TLC checks Parse(Respell(Print(g))) = Canon(g) on a bounded shape set, emits re-spelling patterns, and validates the real text token for token and every parse result",
-    level_text="TLC checks on the 534-shape bounded set (nine kinds, empty members, nested collections) that the grammar parses the printed token sequence back to the canonical value, also with white space inserted at any one or two admissible gaps, and that the typed acceptance table is exact. For seeded geometries with finite coordinates over the full float64 range (exponent forms below 1e-4 and from 1e21, 17-digit mantissas, subnormals, -0; collections nested to depth 3 with empty members) the harness tokenises the text the real wkt.MarshalString produced (numbers -> strconv.ParseFloat -> bit id); TLC requires the tokens to equal the specified printing exactly (so shortest-representation printing is checked through id equality), wkt.Unmarshal to return the canonical value, and each of the seven typed parse functions to accept exactly its own kind and report incorrect-geometry otherwise. 819 TLC-generated re-spelling patterns (gap positions x keyword case class x kind of white space) are applied to real texts and must parse to the same value. Coordinates also come from the float32-exact values (widened single-precision numbers, 2^24 .. 2^63 plus small offsets, MaxFloat32, float32 subnormals); collections are nested up to 40 levels deep. The seven typed parse functions also see every re-spelled text (own kind accepted, others incorrect-geometry). What Marshal returned is verified after the next call and then overwritten, as a caller may.",
+    level_text="TLC checks on the 534-shape bounded set (nine kinds, empty members, nested collections) that the grammar parses the printed token sequence back to the canonical value, also with white space inserted at any one or two admissible gaps, and that the typed acceptance table is exact. For seeded geometries with finite coordinates over the full float64 range (exponent forms below 1e-4 and from 1e21, 17-digit mantissas, subnormals, -0; collections nested to depth 3 with empty members) the harness tokenises the text the real wkt.MarshalString produced (numbers -> strconv.ParseFloat -> bit id); TLC requires the tokens to equal the specified printing exactly (so shortest-representation printing is checked through id equality), wkt.Unmarshal to return the canonical value, and each of the seven typed parse functions to accept exactly its own kind and report incorrect-geometry otherwise. 819 TLC-generated re-spelling patterns (gap positions x keyword case class x kind of white space) are applied to real texts and must parse to the same value. Coordinates also come from the float32-exact values (widened single-precision numbers, 2^24 .. 2^63 plus small offsets, MaxFloat32, float32 subnormals); collections are nested up to 40 levels deep. The seven typed parse functions also see every re-spelled text (own kind accepted, others incorrect-geometry). What Marshal returned is verified after the next call and then overwritten, as a caller may. Every third event first parses a text the parsers refuse (malformed members in the middle of collections); coordinates include decimals of up to seven places and the float64 next to them on either side.",
     level_note="That a decimal string denotes a given float64 is decided by strconv.ParseFloat + bit interning in the harness (TLC sees id equality). Polygons / multi-line strings containing a zero-vertex part print '()' which is not WKT and are not generated; NaN and infinities are outside the quantifier (finite coordinates). Trusted: TLC, Json module, strconv, the tokeniser.",
     rule="one event = one geometry (text tokens, parse result, typed results) or one re-spelled text; non-trivial = non-nil geometry; distinct = distinct event text",
     assumptions=["white space is never inserted between the two numbers of a coordinate"],
@@ -681,7 +681,7 @@ def run_c02(ctx):
 PLANS["C02"] = dict(
     run=run_c02, signature=sig_default,
     technique="TLA+ abstract JSON documents (GeomDoc / FeatureDoc / FCDoc, RFC 7946 shape predicate, Norm); TLC checks the document model on a bounded shape set and validates the documents parsed out of the real JSON bytes and the values decoded back through JSON and BSON",
-    level_text="TLC checks on the 534-shape bounded set that the specified document of every geometry is well-formed RFC 7946 (type names the kind, coordinates nested exactly as deep as the kind requires, collections use geometries), that a ring or bound gives the polygon's document and an empty collection null. For seeded geometries (nine kinds, nested collections incl. empty ones, coordinates over the full finite float64 range), features (id absent / string / number, properties over null, bool, number, string, array, object, optional bbox) and feature collections with foreign members, the harness parses the produced JSON generically (encoding/json, numbers -> strconv -> bit id); TLC requires the document to equal the specified one exactly, the values decoded through UnmarshalGeometry / UnmarshalFeature / UnmarshalFeatureCollection and through BSON to equal the normal form of the input, and the re-marshalled JSON to be byte-identical. The same bytes are also decoded into Geometry / Feature / FeatureCollection values that already hold the results of earlier events (a decoding loop reusing one variable) and must give the same value; json.Marshal and a Geometry literal around the value must give the same bytes as MarshalJSON / bson.Marshal of NewGeometry; the bytes returned for the previous event must still be what they were. Integer feature ids, also beyond 2^53, must come back from BSON as the same integer (bsonid events). The typed helper values (geojson.Point .. MultiPolygon) live across events as receivers: each decodes the next document of its kind, must return it and leave what it returned before intact; features and collections are also handed to both encoders by value; a long-lived Geometry value gets its Coordinates field reassigned from event to event. Coordinates include values widened from float32. Feature ids at 2^53, 2^62, +-2^63 and 2^64; one long-lived Geometry takes JSON and BSON documents in turn; foreign-member names with '.', '$', their full-width twins and names that mean something elsewhere (_id, id, geometry, properties, coordinates); empty non-nil ExtraMembers. Everything the marshal calls of one event returned (also the null document marshalled by itself) is verified unchanged at the next event and then overwritten, as a caller may.",
+    level_text="TLC checks on the 534-shape bounded set that the specified document of every geometry is well-formed RFC 7946 (type names the kind, coordinates nested exactly as deep as the kind requires, collections use geometries), that a ring or bound gives the polygon's document and an empty collection null. For seeded geometries (nine kinds, nested collections incl. empty ones, coordinates over the full finite float64 range), features (id absent / string / number, properties over null, bool, number, string, array, object, optional bbox) and feature collections with foreign members, the harness parses the produced JSON generically (encoding/json, numbers -> strconv -> bit id); TLC requires the document to equal the specified one exactly, the values decoded through UnmarshalGeometry / UnmarshalFeature / UnmarshalFeatureCollection and through BSON to equal the normal form of the input, and the re-marshalled JSON to be byte-identical. The same bytes are also decoded into Geometry / Feature / FeatureCollection values that already hold the results of earlier events (a decoding loop reusing one variable) and must give the same value; json.Marshal and a Geometry literal around the value must give the same bytes as MarshalJSON / bson.Marshal of NewGeometry; the bytes returned for the previous event must still be what they were. Integer feature ids, also beyond 2^53, must come back from BSON as the same integer (bsonid events). The typed helper values (geojson.Point .. MultiPolygon) live across events as receivers: each decodes the next document of its kind, must return it and leave what it returned before intact; features and collections are also handed to both encoders by value; a long-lived Geometry value gets its Coordinates field reassigned from event to event. Coordinates include values widened from float32. Feature ids at 2^53, 2^62, +-2^63 and 2^64; one long-lived Geometry takes JSON and BSON documents in turn; foreign-member names with '.', '$', their full-width twins and names that mean something elsewhere (_id, id, geometry, properties, coordinates); empty non-nil ExtraMembers. Everything the marshal calls of one event returned (also the null document marshalled by itself) is verified unchanged at the next event and then overwritten, as a caller may. Property names that collide under common 32-bit hashes (FNV-1, FNV-1a, CRC-32, Adler-32, x31, x33; equal length, found by a birthday search at start-up) appear together and alone across events; bboxes at the origin, of no extent, with six numbers.",
     level_note="That a decimal string denotes a float64 is decided by strconv + bit interning in the harness. Geometries containing nil slices marshal to \"coordinates\": null and are not generated (the quantifier does not name them); a bare top-level empty collection is not a geometry document and is only exercised inside features. Foreign members named exactly type / bbox / features are excluded by the quantifier (other spellings such as Type, Features are generated). The six helper types are exercised in C05. Trusted: TLC, Json module, encoding/json and bson as lenses on the bytes, strconv.",
     rule="one event = one geometry / feature / feature collection with its JSON document and both decoded values; all events non-trivial; distinct = distinct event text",
     assumptions=["encoding/json (UseNumber) and go.mongodb.org bson read the produced bytes faithfully"],
@@ -718,7 +718,7 @@ def sig_c05(ev):
 PLANS["C05"] = dict(
     run=run_c05, signature=sig_c05,
     technique="TLA+ reference decoders of the codec specs as outcome oracles plus an allocation bound; TLC enumerates the finite hostile-input spaces named by the property for replay, and judges every recorded decoder outcome",
-    level_text="TLC emits exactly the finite spaces the property names - every WKB header (order byte x type word x boundary count x payload shape), every WKT sentence of <=4 (5) tokens over a 16-token alphabet, every MVT command-word sequence of <=4 words over a 14-word alphabet (incl. MoveTo, LineTo and ClosePath words claiming millions of points) - and the harness runs every decoder entry point on each (WKB/EWKB byte, stream, scanner x 10 destinations incl. hex and SRID-prefix framing; wkt.Unmarshal and the 7 typed parsers; mvt.Unmarshal), on every truncation of every header, on all 0..2-byte tiles, and on seeded structure-aware mutations (truncate, bit flip, count inflation, splice, nesting, duplication, GeoJSON member edits) of valid WKB/EWKB, WKT, MVT, GeoJSON and BSON encodings. Each call runs under recover, a watchdog and a TotalAlloc delta. TLC requires: a value or an error (never a panic or hang), allocation <= 4096*len + 8 MB, and - where the reference decoder of the codec spec fixes the meaning - agreement: bytes the WKB grammar accepts decode on every path to one and the same value with stable re-encoding, properly-headed but truncated / over-counted bytes fail on every path, WKT sentences the grammar accepts and MVT command streams the state machine accepts decode to exactly the specified value. Also: well-formed BSON documents whose members have the wrong kind (number, null, document, binary, array, boolean) at both levels for every BSON entry point; one layer of 2000 keys x 3000 features (allocation must follow the input size, not keys x features); gzipped tiles whose trailer claims 0 .. 4 GB of content and gzip streams with seeded damage. Long-lived scanners see a well-formed SRID-prefixed row before every input. Blank and almost blank values of 0..12 bytes go to the scanners, WKT parsers and JSON entry points; 99..1000 genuine members stand under counts of n+1 .. 2^32-1 for every container kind, both byte orders, alone and inside multi-polygons / collections (allocation follows the bytes that are there, also once the preallocation cap is used up); extended WKT spellings (SRID=... with and without ';', Z / M suffixes), complete and cut short, also as collection members.",
+    level_text="TLC emits exactly the finite spaces the property names - every WKB header (order byte x type word x boundary count x payload shape), every WKT sentence of <=4 (5) tokens over a 16-token alphabet, every MVT command-word sequence of <=4 words over a 14-word alphabet (incl. MoveTo, LineTo and ClosePath words claiming millions of points) - and the harness runs every decoder entry point on each (WKB/EWKB byte, stream, scanner x 10 destinations incl. hex and SRID-prefix framing; wkt.Unmarshal and the 7 typed parsers; mvt.Unmarshal), on every truncation of every header, on all 0..2-byte tiles, and on seeded structure-aware mutations (truncate, bit flip, count inflation, splice, nesting, duplication, GeoJSON member edits) of valid WKB/EWKB, WKT, MVT, GeoJSON and BSON encodings. Each call runs under recover, a watchdog and a TotalAlloc delta. TLC requires: a value or an error (never a panic or hang), allocation <= 4096*len + 8 MB, and - where the reference decoder of the codec spec fixes the meaning - agreement: bytes the WKB grammar accepts decode on every path to one and the same value with stable re-encoding, properly-headed but truncated / over-counted bytes fail on every path, WKT sentences the grammar accepts and MVT command streams the state machine accepts decode to exactly the specified value. Also: well-formed BSON documents whose members have the wrong kind (number, null, document, binary, array, boolean) at both levels for every BSON entry point; one layer of 2000 keys x 3000 features (allocation must follow the input size, not keys x features); gzipped tiles whose trailer claims 0 .. 4 GB of content and gzip streams with seeded damage. Long-lived scanners see a well-formed SRID-prefixed row before every input. Blank and almost blank values of 0..12 bytes go to the scanners, WKT parsers and JSON entry points; 99..1000 genuine members stand under counts of n+1 .. 2^32-1 for every container kind, both byte orders, alone and inside multi-polygons / collections (allocation follows the bytes that are there, also once the preallocation cap is used up); extended WKT spellings (SRID=... with and without ';', Z / M suffixes), complete and cut short, also as collection members. Every container kind x member kind x member count 0 / 1 x 0..24 bytes behind the member's header; gzip in gzip (in gzip) around 64 KB .. 16 MB (32 MB thorough) of zeros; protobuf wire shapes (every wire type, groups, unknown fields, lengths and varints at the ends of their ranges, over-long varints), also inside a layer; the exported Unmarshal methods of the four generated vectortile message types count as decoders.",
     level_note="Coverage-guided fuzzing is a different technique and not used. Byte-level garbage inside JSON / BSON / protobuf framing is handled by encoding/json, bson and protoscan (not orb code): for those inputs only value-or-error and the allocation bound are demanded. Allocation is measured single-threaded with runtime.MemStats.TotalAlloc. Trusted: TLC, Json module, runtime.MemStats, recover-based panic capture.",
     rule="one event = one input with the outcome of every decoder run on it and the bytes allocated; non-trivial = some decoder returned a value (WKB, WKT, MVT enumerations) / all raw events; distinct = distinct event text",
     assumptions=["a hang is detected by the 30 s watchdog of the harness", "fatal runtime errors (out of memory, stack exhaustion) kill the harness and are reported as a crash violation"],
@@ -737,7 +737,7 @@ def run_c15(ctx):
 PLANS["C15"] = dict(
     run=run_c15, signature=sig_default,
     technique="TLA+ MapVertices law with a tagging point function, and contracts on integer observations for the numeric projections; TLC checks the law on the bounded shape set and validates traces of project.* and mvt ProjectToWGS84/ProjectToTile",
-    level_text="TLC checks on the 534-shape bounded set that MapVertices preserves kind and nesting and numbers the visited vertices 1..n in order. Seeded shapes of every kind (nested collections, bounds) are projected by project.Geometry and the typed helpers with a tagging function (k-th call returns <1000-x, k>: it reverses an axis); TLC requires the image to be exactly MapVertices of the input and the number of calls to be the number of vertices (a bound: the box of its two projected corners). Integer tile coordinates in [-extent, 2*extent) incl. all four borders, for random tiles at zooms 0..22, power-of-two and other extents, single layers and Layers values mixing extents, are projected to WGS84 and back: TLC requires the same integers. Lon/lat <-> mercator residuals on a grid and seeded points must stay under 1e-9 degree and 1 mm; anchors (180 deg = 20037508 m, clamps) must match. Half of the tile round trips run on Layer values that were projected before for another extent or another tile (holding other features at the time). The twelve vertices of a tile round trip travel as a multipoint, a line, two lines, a polygon with a hole or two polygons, and a third of them start at the tile's own corner or edges (0,0), (0,y), (x,0). Parts of 4095..10 007 vertices go through project.Geometry in every kind that holds a long part (every vertex mapped in its place, one call per vertex); layers hold geometry-less features before and after the judged one; rows of a tile's buffer beyond the world's edge are judged up to the documented clamp (0.285 of the world's height), with top- and bottom-row tiles of zooms 2..5 made frequent. The way back to tile coordinates also goes through a layer that has just projected something else to the same tile; boxes with corners swapped; feature geometries include single points, boxes and a collection of point + box + ring + line (kinds that are not slices).",
+    level_text="TLC checks on the 534-shape bounded set that MapVertices preserves kind and nesting and numbers the visited vertices 1..n in order. Seeded shapes of every kind (nested collections, bounds) are projected by project.Geometry and the typed helpers with a tagging function (k-th call returns <1000-x, k>: it reverses an axis); TLC requires the image to be exactly MapVertices of the input and the number of calls to be the number of vertices (a bound: the box of its two projected corners). Integer tile coordinates in [-extent, 2*extent) incl. all four borders, for random tiles at zooms 0..22, power-of-two and other extents, single layers and Layers values mixing extents, are projected to WGS84 and back: TLC requires the same integers. Lon/lat <-> mercator residuals on a grid and seeded points must stay under 1e-9 degree and 1 mm; anchors (180 deg = 20037508 m, clamps) must match. Half of the tile round trips run on Layer values that were projected before for another extent or another tile (holding other features at the time). The twelve vertices of a tile round trip travel as a multipoint, a line, two lines, a polygon with a hole or two polygons, and a third of them start at the tile's own corner or edges (0,0), (0,y), (x,0). Parts of 4095..10 007 vertices go through project.Geometry in every kind that holds a long part (every vertex mapped in its place, one call per vertex); layers hold geometry-less features before and after the judged one; rows of a tile's buffer beyond the world's edge are judged up to the documented clamp (0.285 of the world's height), with top- and bottom-row tiles of zooms 2..5 made frequent. The way back to tile coordinates also goes through a layer that has just projected something else to the same tile; boxes with corners swapped; feature geometries include single points, boxes and a collection of point + box + ring + line (kinds that are not slices). Layers of three tiles that differ in one bit of the column or of the row (zooms 9..30, both halves of the world) are projected to WGS84 one after the other and back in another order.",
     level_note="exp / atan / log cannot be specified in TLA+: for the two real-valued inverses TLC only judges a recorded residual against the tolerance (a contract on the code's own output, not an independent oracle). Tile rows outside the mercator square (beyond the poles) are clamped by design and excluded. Trusted: TLC, Json module, integer rounding of observations.",
     rule="one event = one projected shape (in/out trees, call count), one layer's tile coordinates before/after the round trip, one residual observation or one anchor; all events non-trivial; distinct = distinct event text",
     assumptions=["tile coordinates are exact integers in float64"],
@@ -756,7 +756,7 @@ def run_c18(ctx):
 PLANS["C18"] = dict(
     run=run_c18, signature=sig_default,
     technique="TLA+ relations over integer observations of the spherical functions, rational-sine closed forms for box areas, and a model check of the ring-area index schedule; TLC validates traces of the real geo functions",
-    level_text="TLC model-checks the index schedule of geo.ringArea (lo/mi/hi rewiring with implicit closing) against the cyclic-triple sum for rings of 3..14 stored vertices, closed and unclosed. For seeded and gridded point pairs (incl. pairs straddling the antimeridian in both orders and close pairs below 80 degrees), bearings, distances to 5000 km, lines and rings of 3..12 integer-degree vertices, TLC requires: both distances symmetric bit for bit and at most half the circumference; fast vs haversine within 1e-5 under 10 km; PointAtBearingAndDistance landing within 1 mm of the requested haversine distance; the midpoint equidistant within 1 mm; Length = sum of segment distances; ring area unchanged (1e-6) by every rotation, the reversal (negated), explicit closing and by living in a shared coordinate buffer (which must not be written); SignedArea's sign = the winding computed from the integer coordinates; polygon = |outer| - sum |holes| for holes of either winding, multi = sum; and the area of every box whose parallels are 0, +-30, +-90 degrees = 710 011 km^2 x width x (sin top - sin bottom) in integer arithmetic. Length as the sum of segment distances is also required of rings (stored segments only), multi-lines, polygons and nested collections; the area of a collection = the sum over polygons, bare rings, boxes, nested collections and members without area. Bearings include the exact cardinal ones from latitudes 70..89 degrees (the way leads over a pole); polygons have one to three holes of either winding; the length of a box is the sum of its four side distances; the deprecated spelling LengthHaversign must equal LengthHaversine. Ringless members anywhere in a multipolygon; lines that start next to +-180 degrees and wander across the antimeridian (length = sum of the segment distances, which fold).",
+    level_text="TLC model-checks the index schedule of geo.ringArea (lo/mi/hi rewiring with implicit closing) against the cyclic-triple sum for rings of 3..14 stored vertices, closed and unclosed. For seeded and gridded point pairs (incl. pairs straddling the antimeridian in both orders and close pairs below 80 degrees), bearings, distances to 5000 km, lines and rings of 3..12 integer-degree vertices, TLC requires: both distances symmetric bit for bit and at most half the circumference; fast vs haversine within 1e-5 under 10 km; PointAtBearingAndDistance landing within 1 mm of the requested haversine distance; the midpoint equidistant within 1 mm; Length = sum of segment distances; ring area unchanged (1e-6) by every rotation, the reversal (negated), explicit closing and by living in a shared coordinate buffer (which must not be written); SignedArea's sign = the winding computed from the integer coordinates; polygon = |outer| - sum |holes| for holes of either winding, multi = sum; and the area of every box whose parallels are 0, +-30, +-90 degrees = 710 011 km^2 x width x (sin top - sin bottom) in integer arithmetic. Length as the sum of segment distances is also required of rings (stored segments only), multi-lines, polygons and nested collections; the area of a collection = the sum over polygons, bare rings, boxes, nested collections and members without area. Bearings include the exact cardinal ones from latitudes 70..89 degrees (the way leads over a pole); polygons have one to three holes of either winding; the length of a box is the sum of its four side distances; the deprecated spelling LengthHaversign must equal LengthHaversine. Ringless members anywhere in a multipolygon; lines that start next to +-180 degrees and wander across the antimeridian (length = sum of the segment distances, which fold). Bearing-and-distance also for 2 mm .. 40 m.",
     level_note="Trigonometric closed forms at arbitrary latitudes cannot be written in TLA+: apart from the rational-sine boxes and the winding sign, the checks are relations between outputs of the code (a contract, not an independent oracle). Trusted: TLC, Json module, the fixed-point roundings in the harness.",
     rule="one event = one observation tuple (distance pair, bearing landing, midpoint, length, box, ring with its variants); all events non-trivial; distinct = distinct event text",
     assumptions=["float64 arithmetic error is far below the tolerances (1 mm, 1e-5, 1e-6 relative)"],
